@@ -22,6 +22,18 @@ CLAIMED = {
     },
 }
 
+CLAIMED["C05"] = {
+    "engine": "history",
+    "level": "exploration",
+    "technique": "deterministic simulation: seeded histories of entry-point calls on one long-lived runtime with injected step-budget, cancellation, host-panic/error, limit and stream faults; invariants after every return plus acknowledgement model replayed in a twin runtime",
+    "text": "Histories of 2-6 operations through every exported entry point (Load*, Eval*, FunCall*, SpecialOpCall, MacroCall, LoadProgram*), each with a fault plan drawn from the seed (budget at step n, cancellation at poll k, host panic / error / nil return at a cooperative fault point, two faults in one operation, tiny structural limits, allocation cap, failing source reader). After every return the public-API invariants are checked (empty stack, no pending condition, zero nesting, package and context restored, panic flag iff a panic was injected) and a fixed inspection program is evaluated in the used runtime, re-run under a budget equal to its own cost, and compared with a fresh twin runtime that received exactly the acknowledged state operations (in-flight operations may be observed done or not done, nothing else). Seeded sampling; no exhaustiveness claimed.",
+    "note": "Trusted: the simulator's stubs; the acknowledgement protocol (begin/end probes around atomic state operations); the inspection program covers globals, functions, a map, a vector, export lists and current package over three packages - state outside that is not compared.",
+    "design_ref": "4/C05",
+    "rule": "case = history of 2-6 entry-point operations with per-operation fault plan and runtime knobs; distinct_nontrivial counts distinct whole-history event-log hashes among histories in which at least one injected fault actually fired.",
+    "real": REAL, "stubs": STUBS + ["chunking/failing io.Reader"],
+    "assumptions": ["state operations are atomic at the lisp level (set, set!, defun, assoc!, dissoc!, append!, export)", "FunCall entry points are only applied to lisp-defined functions; profiler-hook panics are not injected under direct FunCall"],
+}
+
 NOT_APPLICABLE = {
     "C01": "pure function of the program text: no schedule, clock, fault or history in the statement; needs a definitional interpreter (differential testing), which is a different technique",
     "C02": "relation between two fault-free deterministic executions under two static configurations plus a height bound that is a function of the program; nothing for a simulator to schedule or inject (the TRO knob is still randomised inside C04-C06)",
@@ -37,7 +49,7 @@ NOT_APPLICABLE = {
 }
 
 PENDING = {pid: "a simulation target (see DESIGN.md section 3) whose check is not built yet at this commit; not claimed until it runs clean on the unchanged tree"
-           for pid in ["C05", "C06", "C08", "C09", "C10", "C11", "C15", "C20"]}
+           for pid in ["C06", "C08", "C09", "C10", "C11", "C15", "C20"]}
 
 
 def main():
@@ -79,7 +91,7 @@ def main():
         "hooks": {
             "guard": "verif",
             "enable": "go build tag: the simulator binaries are built with `-tags verif` (see ./check); without the tag the hook compiles to an empty inlined function",
-            "baseline_off_cmd": "cd /repo && GOFLAGS=-mod=mod GOPROXY=off go test -json -vet=off -count=1 -timeout 25m ./...",
+            "baseline_off_cmd": "for m in . tree-sitter-elps; do (cd /repo/$m && GOFLAGS=-mod=mod GOPROXY=off go test -json -vet=off -count=1 -timeout 25m ./...); done",
             "source_commits": hooks_commits,
             "add_only": True,
         },
